@@ -12,7 +12,7 @@
     [inc_end m g n] / [hh_end g n] = n lies on an included / on an H-H bond, [charge_changed a] = the two charges in typesGH differ.
     Theorems 13-17: the RadiusExpand helpers. *)
 From Coq Require Import List NArith ZArith Bool.
-From SK Require Import lib.LGraph lib.C01_GraphLemmas model.C01_Model model.C02_Model proof.C02_Proof proof.C02_Opts proof.C02_OptsEquiv proof.C02_Ctx proof.C02_Lre proof.C02_Sides.
+From SK Require Import lib.LGraph lib.C01_GraphLemmas model.C01_Model model.C02_Model proof.C02_Proof proof.C02_Opts proof.C02_OptsEquiv proof.C02_Ctx proof.C02_Lre proof.C02_LreTrace proof.C02_Sides.
 Import ListNotations.
 Local Open Scope Z_scope.
 
@@ -256,3 +256,46 @@ Theorem C02_lre_longest_first : forall (g : its) (n0 : N) (rest ext : list N), w
   zchain g n0 ext -> NoDup (n0 :: ext) -> (length (n0 :: ext) <= length (lre g (n0 :: rest)))%nat.
 Proof. exact lre_longest_first. Qed.
 Print Assumptions C02_lre_longest_first.
+
+(** 22. longest_radius_extension for ALL centre atoms.  [lre_trace g rcn []] records the calls of the inner search in order:
+        (start atom, atoms excluded at that moment, path found).  The result is the first longest recorded path; every
+        recorded path is a longest duplicate-free chain of standard_order = 0 bonds from its start atom among the chains that
+        avoid the excluded atoms; a start atom is never excluded, the excluded atoms contain the atoms of all earlier paths,
+        and a centre atom that starts no call lies on an earlier path. *)
+Theorem C02_lre_is_first_longest : forall (g : its) rcn,
+  lre g rcn = first_longest (map snd (lre_trace g rcn [])) [].
+Proof. exact lre_is_first_longest. Qed.
+Print Assumptions C02_lre_is_first_longest.
+
+Theorem C02_lre_trace_longest : forall (g : its) (rcn : list N), wf g -> (forall n, In n rcn -> In n (node_ids g)) ->
+  forall n v p, In (n, v, p) (lre_trace g rcn []) ->
+  (length p <= length (lre g rcn))%nat /\
+  forall ext, zchain g n ext -> NoDup (n :: ext) -> (forall x, In x ext -> ~ In x v) ->
+              (length (n :: ext) <= length p)%nat.
+Proof. exact lre_trace_longest. Qed.
+Print Assumptions C02_lre_trace_longest.
+
+Theorem C02_lre_trace_entries : forall (g : its) rcn vis n v p, In (n, v, p) (lre_trace g rcn vis) ->
+  In n rcn /\ ~ In n v /\ p = lre_dfs g (lre_fuel g) n v [n] /\ (forall x, In x vis -> In x v).
+Proof. exact lre_trace_entries. Qed.
+Print Assumptions C02_lre_trace_entries.
+
+Theorem C02_lre_trace_covers : forall (g : its) rcn vis n, In n rcn ->
+  In n vis \/ exists v p, In (n, v, p) (lre_trace g rcn vis) \/
+                          (exists m v' p', In (m, v', p') (lre_trace g rcn vis) /\ In n p').
+Proof. exact lre_trace_covers. Qed.
+Print Assumptions C02_lre_trace_covers.
+
+(** 23. remove_normal_edges(., "is_mtg") keeps every atom and exactly the bonds whose is_mtg is absent or True;
+        extract_subgraph is the induced subgraph on the listed atoms that exist *)
+Theorem C02_remove_normal_mtg : forall g : xits, wf g ->
+  gnodes (remove_normal_mtg g) = gnodes g /\
+  (forall u v x, adj (remove_normal_mtg g) u v = Some x <-> adj g u v = Some x /\ snd x <> Some false).
+Proof. exact remove_normal_mtg_spec. Qed.
+Print Assumptions C02_remove_normal_mtg.
+
+Theorem C02_extract_subgraph : forall (g : its) (ids : list N), wf g ->
+  (forall n a, label (extract_subgraph g ids) n = Some a <-> label g n = Some a /\ In n ids) /\
+  (forall u v e, adj (extract_subgraph g ids) u v = Some e <-> adj g u v = Some e /\ In u ids /\ In v ids).
+Proof. exact extract_subgraph_spec. Qed.
+Print Assumptions C02_extract_subgraph.
